@@ -1,1 +1,317 @@
 //! Subprocess driver for the repository's binaries and readers for their output.
+
+use crate::runner::{bin_dir, tmp_dir};
+use std::io::{Read, Write};
+use std::path::PathBuf;
+use std::process::{Command, Stdio};
+use std::time::{Duration, Instant};
+
+#[derive(Debug, Clone)]
+pub struct Run {
+    pub code: Option<i32>,
+    pub signal: Option<i32>,
+    pub timed_out: bool,
+    pub stdout: Vec<u8>,
+    pub stderr: Vec<u8>,
+}
+
+impl Run {
+    pub fn ok(&self) -> bool {
+        self.code == Some(0)
+    }
+    /// panic (exit status 101), death by signal, or failure to terminate
+    pub fn crashed(&self) -> bool {
+        self.code == Some(101) || self.signal.is_some() || self.timed_out
+    }
+    pub fn out(&self) -> String {
+        String::from_utf8_lossy(&self.stdout).into_owned()
+    }
+    pub fn err(&self) -> String {
+        String::from_utf8_lossy(&self.stderr).into_owned()
+    }
+    pub fn describe(&self) -> String {
+        if self.timed_out {
+            "did not terminate within the time limit".into()
+        } else if let Some(s) = self.signal {
+            format!("killed by signal {s}")
+        } else {
+            format!("exit status {}", self.code.unwrap_or(-1))
+        }
+    }
+    pub fn err_tail(&self) -> String {
+        let e = self.err();
+        let lines: Vec<&str> = e.lines().filter(|l| !l.starts_with("finished ") && !l.starts_with("omitted choice")).collect();
+        lines.iter().rev().take(3).rev().cloned().collect::<Vec<_>>().join(" / ")
+    }
+}
+
+pub const FUEL_ENV: &str = "RSBDD_VERIF_FP_FUEL";
+pub const CLI_FUEL: &str = "20000";
+
+/// run a repository binary; `env` entries are added to the environment
+pub fn run_bin(bin: &str, args: &[String], stdin: Option<&[u8]>, env: &[(&str, String)]) -> Run {
+    let path = bin_dir().join(bin);
+    let mut c = Command::new(&path);
+    c.args(args).stdout(Stdio::piped()).stderr(Stdio::piped());
+    c.stdin(if stdin.is_some() { Stdio::piped() } else { Stdio::null() });
+    c.env_remove("RSBDD_VERIF_RNG");
+    c.env(FUEL_ENV, CLI_FUEL);
+    c.env("RUST_BACKTRACE", "0");
+    for (k, v) in env {
+        c.env(k, v);
+    }
+    let mut ch = c.spawn().unwrap_or_else(|e| panic!("machinery: cannot run {}: {e}", path.display()));
+    if let Some(data) = stdin {
+        let mut si = ch.stdin.take().expect("stdin");
+        let data = data.to_vec();
+        // small inputs only; write then close
+        let _ = si.write_all(&data);
+        drop(si);
+    }
+    let mut so = ch.stdout.take().expect("stdout");
+    let mut se = ch.stderr.take().expect("stderr");
+    let t_out = std::thread::spawn(move || {
+        let mut b = vec![];
+        let _ = so.read_to_end(&mut b);
+        b
+    });
+    let t_err = std::thread::spawn(move || {
+        let mut b = vec![];
+        let _ = se.read_to_end(&mut b);
+        b
+    });
+    let limit = Duration::from_secs(std::env::var("VCHECK_CLI_TIMEOUT_S").ok().and_then(|s| s.parse().ok()).unwrap_or(60));
+    let t0 = Instant::now();
+    let mut timed_out = false;
+    let status = loop {
+        match ch.try_wait() {
+            Ok(Some(st)) => break Some(st),
+            Ok(None) => {
+                if t0.elapsed() > limit {
+                    let _ = ch.kill();
+                    timed_out = true;
+                    break ch.wait().ok();
+                }
+                std::thread::sleep(Duration::from_micros(300));
+            }
+            Err(_) => break None,
+        }
+    };
+    let stdout = t_out.join().unwrap_or_default();
+    let stderr = t_err.join().unwrap_or_default();
+    use std::os::unix::process::ExitStatusExt;
+    Run {
+        code: status.and_then(|s| s.code()),
+        signal: if timed_out { None } else { status.and_then(|s| s.signal()) },
+        timed_out,
+        stdout,
+        stderr,
+    }
+}
+
+pub fn rsbdd(args: &[String], stdin: Option<&[u8]>) -> Run {
+    run_bin("rsbdd", args, stdin, &[])
+}
+
+/// a scratch directory private to this worker process
+pub fn scratch() -> PathBuf {
+    let p = tmp_dir().join(format!("w{}", std::process::id()));
+    let _ = std::fs::create_dir_all(&p);
+    p
+}
+pub fn scratch_file(name: &str, contents: &[u8]) -> PathBuf {
+    let p = scratch().join(name);
+    std::fs::write(&p, contents).expect("machinery: write scratch file");
+    p
+}
+pub fn cleanup_scratch() {
+    let _ = std::fs::remove_dir_all(scratch());
+}
+
+pub fn s(x: &str) -> String {
+    x.to_string()
+}
+
+// ---------------------------------------------------------------------------------------
+// truth table reader
+
+#[derive(Debug, Clone, Copy, PartialEq, Eq, Hash)]
+pub enum Cell {
+    T,
+    F,
+    Any,
+}
+
+#[derive(Debug, Clone, PartialEq, Eq)]
+pub struct Table {
+    pub header: Vec<String>,
+    /// (cells per column, result)
+    pub rows: Vec<(Vec<Cell>, bool)>,
+}
+
+/// Reads the `|`-separated table printed by `rsbdd -t`; only cell contents are read
+/// (layout, widths and the separator line are the implementation's business).
+pub fn parse_table(out: &str) -> Result<Table, String> {
+    let mut lines = out.lines().filter(|l| l.starts_with('|'));
+    let split = |l: &str| -> Vec<String> {
+        let inner = l.trim().trim_start_matches('|').trim_end_matches('|');
+        inner.split('|').map(|c| c.trim().to_string()).collect()
+    };
+    let header_line = lines.next().ok_or("no table header")?;
+    let mut header = split(header_line);
+    if header.last().map(String::as_str) != Some("*") {
+        return Err(format!("header does not end with the result column: {header_line}"));
+    }
+    header.pop();
+    let mut rows = vec![];
+    for l in lines {
+        let cells = split(l);
+        if cells.iter().all(|c| !c.is_empty() && c.chars().all(|ch| ch == '-')) {
+            continue; // separator line
+        }
+        if cells.len() != header.len() + 1 {
+            return Err(format!("row has {} cells, header has {} columns: {l}", cells.len(), header.len() + 1));
+        }
+        let mut cs = vec![];
+        for c in &cells[..header.len()] {
+            cs.push(match c.as_str() {
+                "True" => Cell::T,
+                "False" => Cell::F,
+                "Any" => Cell::Any,
+                o => return Err(format!("unexpected cell '{o}' in row: {l}")),
+            });
+        }
+        let res = match cells[header.len()].as_str() {
+            "True" => true,
+            "False" => false,
+            o => return Err(format!("unexpected result '{o}' in row: {l}")),
+        };
+        rows.push((cs, res));
+    }
+    Ok(Table { header, rows })
+}
+
+/// all total assignments (bit i = column i) covered by a row
+pub fn row_assignments(cells: &[Cell]) -> Vec<usize> {
+    let k = cells.len();
+    (0..(1usize << k))
+        .filter(|a| cells.iter().enumerate().all(|(i, c)| match c {
+            Cell::Any => true,
+            Cell::T => (a >> i) & 1 == 1,
+            Cell::F => (a >> i) & 1 == 0,
+        }))
+        .collect()
+}
+
+// ---------------------------------------------------------------------------------------
+// one invocation of the rsbdd binary, reproducible from JSON
+
+use serde_json::{json, Value};
+
+#[derive(Debug, Clone, Copy, PartialEq, Eq)]
+pub enum Channel {
+    Evaluate,
+    File,
+    Stdin,
+}
+
+#[derive(Debug, Clone)]
+pub struct Inv {
+    pub formula: Vec<u8>,
+    pub channel: Channel,
+    pub ordering: Option<Vec<u8>>,
+    /// plain flags and flag/value pairs, e.g. ["-t", "-f", "True"]
+    pub opts: Vec<String>,
+    pub dot: bool,
+    pub parsetree: bool,
+}
+
+pub struct InvResult {
+    pub run: Run,
+    pub dot: Option<Vec<u8>>,
+    pub parsetree: Option<Vec<u8>>,
+}
+
+impl Inv {
+    pub fn new(formula: &str, opts: &[&str]) -> Inv {
+        Inv { formula: formula.as_bytes().to_vec(), channel: Channel::Evaluate, ordering: None, opts: opts.iter().map(|x| x.to_string()).collect(), dot: false, parsetree: false }
+    }
+    pub fn with_ordering(mut self, o: &str) -> Inv {
+        self.ordering = Some(o.as_bytes().to_vec());
+        self
+    }
+    pub fn to_json(&self) -> Value {
+        json!({
+            "formula": String::from_utf8_lossy(&self.formula),
+            "formula_bytes": self.formula,
+            "channel": match self.channel { Channel::Evaluate => "evaluate", Channel::File => "file", Channel::Stdin => "stdin" },
+            "ordering": self.ordering.as_ref().map(|o| String::from_utf8_lossy(o).into_owned()),
+            "ordering_bytes": self.ordering,
+            "opts": self.opts,
+            "dot": self.dot,
+            "parsetree": self.parsetree,
+        })
+    }
+    pub fn from_json(v: &Value) -> Inv {
+        let bytes = |k: &str| -> Option<Vec<u8>> { v.get(k).and_then(Value::as_array).map(|a| a.iter().map(|x| x.as_u64().unwrap_or(0) as u8).collect()) };
+        Inv {
+            formula: bytes("formula_bytes").unwrap_or_else(|| v["formula"].as_str().unwrap_or("").as_bytes().to_vec()),
+            channel: match v["channel"].as_str() {
+                Some("file") => Channel::File,
+                Some("stdin") => Channel::Stdin,
+                _ => Channel::Evaluate,
+            },
+            ordering: bytes("ordering_bytes").or_else(|| v["ordering"].as_str().map(|s| s.as_bytes().to_vec())),
+            opts: v["opts"].as_array().map(|a| a.iter().map(|x| x.as_str().unwrap_or("").to_string()).collect()).unwrap_or_default(),
+            dot: v["dot"].as_bool().unwrap_or(false),
+            parsetree: v["parsetree"].as_bool().unwrap_or(false),
+        }
+    }
+    pub fn key(&self) -> String {
+        format!(
+            "rsbdd {:?} via {:?}{} opts {:?}{}{}",
+            String::from_utf8_lossy(&self.formula),
+            self.channel,
+            self.ordering.as_ref().map(|o| format!(" ordering {:?}", String::from_utf8_lossy(o))).unwrap_or_default(),
+            self.opts,
+            if self.dot { " -d" } else { "" },
+            if self.parsetree { " -p" } else { "" }
+        )
+    }
+    pub fn run(&self) -> InvResult {
+        let mut args: Vec<String> = vec![];
+        let mut stdin: Option<&[u8]> = None;
+        // --evaluate needs valid UTF-8 on the command line; fall back to a file otherwise
+        let chan = if self.channel == Channel::Evaluate && (std::str::from_utf8(&self.formula).is_err() || self.formula.contains(&0)) { Channel::File } else { self.channel };
+        match chan {
+            Channel::Evaluate => {
+                args.push(format!("--evaluate={}", String::from_utf8_lossy(&self.formula)));
+            }
+            Channel::File => {
+                let p = scratch_file("formula.txt", &self.formula);
+                args.push(p.display().to_string());
+            }
+            Channel::Stdin => stdin = Some(&self.formula),
+        }
+        if let Some(o) = &self.ordering {
+            let p = scratch_file("ordering.txt", o);
+            args.push("-o".into());
+            args.push(p.display().to_string());
+        }
+        args.extend(self.opts.iter().cloned());
+        let dotp = scratch().join("out.dot");
+        let ptp = scratch().join("out.pt.dot");
+        let _ = std::fs::remove_file(&dotp);
+        let _ = std::fs::remove_file(&ptp);
+        if self.dot {
+            args.push("-d".into());
+            args.push(dotp.display().to_string());
+        }
+        if self.parsetree {
+            args.push("-p".into());
+            args.push(ptp.display().to_string());
+        }
+        let run = rsbdd(&args, stdin);
+        InvResult { run, dot: if self.dot { std::fs::read(&dotp).ok() } else { None }, parsetree: if self.parsetree { std::fs::read(&ptp).ok() } else { None } }
+    }
+}
